@@ -1,4 +1,5 @@
 """Driver for the real WSGI application sqllineage.drawing.app (C17): renderer + projection, no oracle logic."""
+from harness import REPO as _REPO
 import io
 import json
 import os
@@ -64,8 +65,8 @@ class Tree:
 
 class Rig:
     def __init__(self, scratch, variant="valid"):
-        if "/repo" not in sys.path:
-            sys.path.insert(0, "/repo")
+        if _REPO not in sys.path:
+            sys.path.insert(0, _REPO)
         import sqllineage.drawing as drawing
         self.drawing = drawing
         self.tree = Tree(scratch, variant)
